@@ -20,10 +20,15 @@ PV(ty, i) == CASE ty = "pch" -> <<Num(-2, -1), Num(-205, 1), Num(-1875, 2)>>[i]
 PdSeq(ty, as) == Cat([i \in 1..3 |-> IF as[i] = ty THEN <<[deg |-> DegSeq[i], v |-> PV(ty, i)]>> ELSE <<>>])
 PerDeg(as) == [pch |-> PdSeq("pch", as), psd |-> PdSeq("psd", as), psw |-> PdSeq("psw", as)]
 PdChoices == {"none", "pch", "psd", "psw"}
-CBand == [f_min |-> Num(1913, -11), f_max |-> Num(19595, -10)]
-LBand == [f_min |-> Num(18605, -10), f_max |-> Num(190555, -9)]
+Band(lo, hi, sp) == [f_min |-> lo, f_max |-> hi, spacing |-> sp]
+CBand == Band(Num(1913, -11), Num(19595, -10), Absent)
+LBand == Band(Num(18605, -10), Num(190555, -9), Absent)
+\* bands that carry their own design spacing (different from the library default of 50 GHz)
+CBand75 == Band(Num(1913, -11), Num(19595, -10), Num(75, -9))
+LBand100 == Band(Num(18605, -10), Num(190555, -9), Num(1, -11))
 BandChoices == {<<>>, <<[deg |-> "d1", bands |-> <<CBand>>]>>,
-                <<[deg |-> "d1", bands |-> <<CBand, LBand>>], [deg |-> "d3", bands |-> <<LBand>>]>>}
+                <<[deg |-> "d1", bands |-> <<CBand, LBand>>], [deg |-> "d3", bands |-> <<LBand>>]>>,
+                <<[deg |-> "d1", bands |-> <<CBand75, LBand>>], [deg |-> "d2", bands |-> <<LBand100>>]>>}
 EqChoices == {[t |-> "none", v |-> Absent], [t |-> "pch", v |-> Num(-185, 1)], [t |-> "psd", v |-> Num(35, 6)],
               [t |-> "psw", v |-> Num(123, 7)]}
 BaseRoadm == [eqtype |-> "pch", eq |-> Num(-2, -1), perdeg |-> PerDeg(<<"none", "none", "none">>), degbands |-> <<>>]
@@ -61,10 +66,10 @@ Oper(g, dp, tt, ov, iv) == [gain_target |-> g, delta_p |-> dp, tilt_target |-> t
 BaseOper == Oper(Num(2, -1), N0, N0, N0, N0)
 OperCfgs == {Oper(g, dp, tt, ov, iv) : g \in {Num(2, -1), Num(17123456, 6), Null}, dp \in {Num(-25, 1), Null, Absent},
                tt \in {N0, Num(-15, 1), Null}, ov \in {N0, Num(125, 2), Null, Absent}, iv \in {N0, Null, Absent}}
-BaseMb == <<[variety |-> "std_medium_gain", oper |-> Oper(Num(2255, 2), Num(9, 1), N0, Num(3, 0), Absent)],
+BaseMb == <<[variety |-> "std_medium_gain_C", oper |-> Oper(Num(2255, 2), Num(9, 1), N0, Num(3, 0), Absent)],
             [variety |-> "std_medium_gain_L", oper |-> Oper(Num(21, 0), Num(3, 0), N0, Num(3, 0), Absent)]>>
 MbCfgs == {BaseMb,
-           <<[variety |-> "std_medium_gain", oper |-> Oper(Null, Null, N0, Null, Absent)],
+           <<[variety |-> "std_medium_gain_C", oper |-> Oper(Null, Null, N0, Null, Absent)],
              [variety |-> "std_medium_gain_L", oper |-> Oper(Num(21123456, 6), Num(-35, 1), Num(-5, 1), Null, N0)]>>,
            <<>>}
 FusedChoices == {Num(1, 0), Num(25, 2), Null, Absent}
@@ -133,7 +138,8 @@ ServDocs == {[BaseServ EXCEPT !.reqs = <<Req("0", inc, sl, mx, pw, md, bs[1], bs
                 bs \in {<<Num(1, -11), Num(5, -10)>>, <<Num(2, -11), Num(375, -8)>>}}
        \cup {[BaseServ EXCEPT !.reqs = <<BaseReq("0"), Req("1", inc, sl, Null, Num(1, 3), "mode 1", Num(1, -11), Num(5, -10))>>,
                               !.sync = sy] :
-                inc \in IncludeChoices, sl \in SlotChoices, sy \in {<<>>, <<[id |-> "0", ids |-> <<"0", "1">>]>>}}
+                inc \in IncludeChoices, sl \in SlotChoices, sy \in {<<>>, <<[id |-> "0", ids |-> <<"0", "1">>, relaxable |-> FALSE]>>,
+                                                                <<[id |-> "0", ids |-> <<"0", "1">>, relaxable |-> TRUE]>>}}
 
 -----------------------------------------------------------------------------
 \* ---- spectrum, sim-params
@@ -176,6 +182,7 @@ IdempotentInv  == pc \in {"again", "done"} => y2 = y
 StructureInv   == /\ pc # "legacy" => Shape(y) = Shape(doc)
                   /\ pc \in {"back", "again", "done"} => Shape(back) = Shape(doc)
 AliasInv       == (pc = "done" /\ doc.kind = "equipment") => AliasClause(doc, lib)
+KeyedOrderInv  == KeyedListOrderIrrelevant(doc)
 \* L2Y really changes the form: a document with numbers is never its own YANG form
 FormsDiffer    == pc # "legacy" => y # doc
 
